@@ -60,6 +60,17 @@ func e1Specs(prop, tier string) []engines.E1Spec {
 				engines.E1Spec{Name: "flags-on-existing/none/rs20", Cfg: cfgNone, Setup: []ops.Op{{K: "put", P: "/f", C: "hello"}}, Alphabet: append(engines.FlagAlphabet("/f"), ops.Op{K: "remove", P: "/f"}), Depth: d, Oracles: or},
 				engines.E1Spec{Name: "flags-on-missing/none/rs20", Cfg: cfgNone, Setup: []ops.Op{{K: "mkdir", P: "/d"}}, Alphabet: append(engines.FlagAlphabet("/d/f"), ops.Op{K: "remove", P: "/d/f"}, ops.Op{K: "openw", P: "/nodir/f", N: os.O_RDWR | os.O_CREATE}), Depth: d, Oracles: or})
 		}
+		if prop == "C02" {
+			// populated sibling directories whose names are neighbours for SQL LIKE (wildcards, ASCII case) or share a prefix
+			pairs := [][]string{{"a", "A"}, {"ab", "a_"}, {"a%", "a%b"}}
+			if tier != "quick" {
+				pairs = append(pairs, []string{"a_", "a_c"}, []string{"ab", "AB"}, []string{"a b", "a."}, []string{"ä", "a"})
+			}
+			for _, pr := range pairs {
+				setups := engines.WSetups(pr, 2)
+				specs = append(specs, engines.E1Spec{Name: fmt.Sprintf("W%v/none/rs20", pr), Cfg: cfgNone, Setup: setups[len(setups)-1], Alphabet: engines.WAlphabet(append(append([]string{}, pr...), "zz")), Depth: map[bool]int{true: 1, false: 2}[tier == "quick"], Oracles: or})
+			}
+		}
 		if prop == "C05" {
 			specs = append(specs, engines.E1Spec{Name: "A-small/none/rs20/overwrite-manager", Cfg: rig.Config{RecordSize: 20, Overwrite: true}, Alphabet: engines.SmallA(), Depth: 3, Oracles: or})
 		}
@@ -75,6 +86,10 @@ func e1Specs(prop, tier string) []engines.E1Spec {
 				b = 3
 			}
 			specs = append(specs, engines.E1Spec{Name: "B-archive/none/rs3", Cfg: rig.Config{RecordSize: 3}, Alphabet: engines.AlphabetB(tier != "quick"), Depth: b, Oracles: or, Level: "archive"})
+			if prop == "C01" {
+				// symbolic links (quantifier of C01 names Symlink; "link targets" are part of the visible tree)
+				specs = append(specs, engines.E1Spec{Name: "L-links/none/rs20", Cfg: cfgNone, Setup: engines.LinkSetup(), Alphabet: engines.LinkAlphabet(), Depth: map[bool]int{true: 3, false: 4}[tier == "quick"], Oracles: or, Level: "raw"})
+			}
 		}
 		if prop == "C13" {
 			max := 2
@@ -340,6 +355,43 @@ func runCheck(prop, tier string, seed int64, workers int) int {
 			"complete_depth": st.MaxDepth, "states": st.States, "transitions": st.Transitions, "pruned_diverged": st.Pruned, "outcomes": st.Outcomes, "wall_s": time.Since(t0).Seconds()})
 		fmt.Fprintf(os.Stderr, "[%s] %s: states=%d transitions=%d pruned=%d depth=%d/%d exhaustive=%v %.1fs\n", prop, sp.Name, st.States, st.Transitions, st.Pruned, st.MaxDepth, sp.Depth, st.Exhaustive, time.Since(t0).Seconds())
 	}
+	if prop == "C13" {
+		// "at all times": the namespace must also be a well-formed tree after concurrent callers. Every schedule (within the
+		// preemption bound) of the parent-vs-child conflict scenarios is executed; the final index rows are compared with
+		// the tree reached from the root.
+		scns := engines.C13Scenarios()
+		bounds := []int{0, 1, 2}
+		if tier != "quick" {
+			bounds = []int{0, 1, 2, 3}
+		}
+		cdl := time.Now().Add(3 * time.Minute)
+		if tier != "quick" {
+			cdl = time.Now().Add(12 * time.Minute)
+		}
+		conc := []map[string]interface{}{}
+		schedules, steps := 0, 0
+		for _, seams := range []bool{false, true} {
+			for _, b := range bounds {
+				if seams && b > 1 && tier == "quick" {
+					continue
+				}
+				t0 := time.Now()
+				pr := runSchedulePlan(rep, p, "C13", scns, seams, b, cdl)
+				if pr.harness != "" {
+					fmt.Fprintln(os.Stderr, "HARNESS ERROR:", pr.harness)
+					return 2
+				}
+				exhaustive = exhaustive && pr.exhaustive
+				schedules += pr.execs
+				steps += pr.steps
+				conc = append(conc, pr.per...)
+				fmt.Fprintf(os.Stderr, "[C13] concurrent callers seams=%v bound=%d: scenarios=%d completed=%d schedules=%d %.1fs\n", seams, b, len(scns), pr.completed, pr.execs, time.Since(t0).Seconds())
+			}
+		}
+		trans += schedules
+		rep.Coverage["concurrent_callers"] = map[string]interface{}{"schedules": schedules, "scheduling_steps": steps, "explorations": conc,
+			"rule": "stateless depth-first search over the schedules of two client threads (one removes/renames a directory, the other creates below it, or both create) on one real fs.STFS with iterative preemption bounding; after every complete schedule the live index rows are compared with the tree reached by listing from the root (orphans, entries below non-directories, unreachable and phantom entries)"}
+	}
 	rep.Coverage["states"] = states
 	rep.Coverage["transitions"] = trans
 	rep.Coverage["traces_validated_against_impl"] = trans
@@ -356,14 +408,14 @@ func runC10(rep *engines.Report, p *pool.Pool, tier string) int {
 	rep.Level = "fault_enumeration"
 	// rejected calls include an unsupported compression level: every write is refused after the drive has been acquired
 	badLevel := rig.Config{RecordSize: 20, Compression: "gzip", Level: "no-such-level"}
-	specs := []engines.E3Spec{{Name: "F/none/rs20", Cfg: cfgNone, Alphabet: engines.FaultAlphabet(false), Depth: 3},
+	specs := []engines.E3Spec{{Name: "F/none/rs20", Cfg: cfgNone, Alphabet: engines.FaultAlphabet(false), Finals: engines.InitFinals(), Depth: 3},
 		{Name: "F/gzip+unsupported-level/rs20", Cfg: badLevel, Alphabet: engines.FaultAlphabet(false), Depth: 2}}
 	budget := 4 * time.Minute
 	if tier != "quick" {
 		specs = []engines.E3Spec{
-			{Name: "F-full/none/rs20", Cfg: cfgNone, Alphabet: engines.FaultAlphabet(true), Depth: 3},
+			{Name: "F-full/none/rs20", Cfg: cfgNone, Alphabet: engines.FaultAlphabet(true), Finals: engines.InitFinals(), Depth: 3},
 			{Name: "F/none/rs1/wc=file", Cfg: rig.Config{RecordSize: 1, WriteCache: "file"}, Alphabet: engines.FaultAlphabet(false), Depth: 4},
-			{Name: "F/gzip+age+minisign/rs1/wc=file", Cfg: rig.Config{RecordSize: 1, Compression: "gzip", Encryption: "age", Signature: "minisign", WriteCache: "file"}, Alphabet: engines.FaultAlphabet(false), Depth: 2},
+			{Name: "F/gzip+age+minisign/rs1/wc=file", Cfg: rig.Config{RecordSize: 1, Compression: "gzip", Encryption: "age", Signature: "minisign", WriteCache: "file"}, Alphabet: engines.FaultAlphabet(false), Finals: engines.InitFinals(), Depth: 2},
 			{Name: "F/gzip+unsupported-level/rs20", Cfg: badLevel, Alphabet: engines.FaultAlphabet(false), Depth: 3},
 		}
 		budget = 25 * time.Minute
@@ -729,11 +781,6 @@ func runC11(rep *engines.Report, p *pool.Pool, tier string) int {
 	}
 	deadline := time.Now().Add(budget)
 	p.JobTimeout = 20 * time.Minute
-	type agg struct {
-		execs, steps, maxPoints int
-		outcomes                map[string]bool
-		capped                  bool
-	}
 	totalExec, totalSteps := 0, 0
 	per := []map[string]interface{}{}
 	allOutcomes := map[string]bool{}
@@ -752,96 +799,19 @@ func runC11(rep *engines.Report, p *pool.Pool, tier string) int {
 			continue
 		}
 		t0 := time.Now()
-		aggs := map[string]*agg{}
-		for _, sc := range scns {
-			aggs[sc.Name] = &agg{outcomes: map[string]bool{}}
-		}
-		harness := ""
-		handle := func(jobs []interface{}, collect *[]interface{}) func(i int, resp *pool.Response) {
-			return func(i int, resp *pool.Response) {
-				job := jobs[i].(*engines.C11Job)
-				a := aggs[job.Scenario]
-				if resp.Err == "skipped" {
-					a.capped = true
-					return
-				}
-				if resp.Err != "" {
-					rep.Inconclusive++
-					a.capped = true
-					fmt.Fprintf(os.Stderr, "[C11] inconclusive: %s prefix %v: %s\n", job.Scenario, job.Prefix, resp.Err)
-					return
-				}
-				var r engines.C11Res
-				_ = json.Unmarshal(resp.Result, &r)
-				if r.Harness != "" {
-					harness = job.Scenario + ": " + r.Harness
-					return
-				}
-				a.execs += r.Execs
-				a.steps += r.Steps
-				if r.MaxPoints > a.maxPoints {
-					a.maxPoints = r.MaxPoints
-				}
-				if r.Capped {
-					a.capped = true
-				}
-				for _, o := range r.Outcomes {
-					a.outcomes[o] = true
-				}
-				for _, s := range r.Sample {
-					rep.AddSample(s)
-				}
-				if collect != nil {
-					for _, c := range r.Children {
-						*collect = append(*collect, &engines.C11Job{Scenario: job.Scenario, Seams: job.Seams, Bound: job.Bound, Prefix: c})
-					}
-				}
-				for _, v := range r.Viol {
-					mj := &engines.C11Job{Scenario: job.Scenario, Seams: job.Seams, Bound: job.Bound, Prefix: v.Sched, Mode: "one"}
-					rep.Add("c11", mj, []engines.Violation{v})
-				}
-			}
-		}
-		p.Stop = func() bool { return time.Now().After(deadline) }
-		lvl := []interface{}{}
-		for _, sc := range scns {
-			lvl = append(lvl, &engines.C11Job{Scenario: sc.Name, Seams: pl.seams, Bound: pl.bound, Prefix: []int{}})
-		}
-		for depth := 0; depth < 2 && len(lvl) > 0; depth++ {
-			for _, j := range lvl {
-				j.(*engines.C11Job).Mode = "expand"
-			}
-			next := []interface{}{}
-			p.Map("c11", lvl, handle(lvl, &next))
-			lvl = next
-		}
-		for _, j := range lvl {
-			j.(*engines.C11Job).Mode = "subtree"
-		}
-		p.Map("c11", lvl, handle(lvl, nil))
-		p.Stop = nil
-		if harness != "" {
-			fmt.Fprintln(os.Stderr, "HARNESS ERROR:", harness)
+		pr := runSchedulePlan(rep, p, "", scns, pl.seams, pl.bound, deadline)
+		if pr.harness != "" {
+			fmt.Fprintln(os.Stderr, "HARNESS ERROR:", pr.harness)
 			return 2
 		}
-		planExecs, completed := 0, 0
-		for _, sc := range scns {
-			a := aggs[sc.Name]
-			if a.capped {
-				exhaustive = false
-				rep.Notes = append(rep.Notes, fmt.Sprintf("%s seams=%v bound=%d: not completed within the budget", sc.Name, pl.seams, pl.bound))
-			} else {
-				completed++
-			}
-			totalExec += a.execs
-			totalSteps += a.steps
-			planExecs += a.execs
-			for o := range a.outcomes {
-				allOutcomes[sc.Name+"|"+o] = true
-			}
-			per = append(per, map[string]interface{}{"scenario": sc.Name, "point_set": map[bool]string{false: "L", true: "L+S"}[pl.seams],
-				"preemption_bound": pl.bound, "schedules": a.execs, "scheduling_steps": a.steps, "max_points_per_execution": a.maxPoints, "distinct_outcomes": len(a.outcomes), "completed": !a.capped})
+		exhaustive = exhaustive && pr.exhaustive
+		totalExec += pr.execs
+		totalSteps += pr.steps
+		planExecs, completed := pr.execs, pr.completed
+		for o := range pr.outcomes {
+			allOutcomes[o] = true
 		}
+		per = append(per, pr.per...)
 		fmt.Fprintf(os.Stderr, "[C11] plan seams=%v bound=%d: scenarios=%d completed=%d schedules=%d %.1fs\n", pl.seams, pl.bound, len(scns), completed, planExecs, time.Since(t0).Seconds())
 	}
 	rep.Coverage["states"] = len(allOutcomes)
@@ -854,6 +824,115 @@ func runC11(rep *engines.Report, p *pool.Pool, tier string) int {
 	rep.Assumptions = []string{"data races are NOT decided here (a cooperative scheduler serialises everything); see the separate free-running -race pass reported under race_pass", "SQLite and database/sql run unscheduled", "2-3 threads, 1-4 calls each, scenarios listed in explorations"}
 	racePass(rep)
 	return rep.Finish()
+}
+
+type planResult struct {
+	per          []map[string]interface{}
+	execs, steps int
+	completed    int
+	outcomes     map[string]bool
+	exhaustive   bool
+	harness      string
+}
+
+// runSchedulePlan explores every schedule of every scenario within one (point set, preemption bound) plan.
+// prop "" = the C11 judgement (completion, linearizability, reproducibility); "C13" = well-formedness of the final namespace.
+func runSchedulePlan(rep *engines.Report, p *pool.Pool, prop string, scns []engines.Scenario, seams bool, bound int, deadline time.Time) *planResult {
+	type agg struct {
+		execs, steps, maxPoints int
+		outcomes                map[string]bool
+		capped                  bool
+	}
+	res := &planResult{outcomes: map[string]bool{}, exhaustive: true}
+	aggs := map[string]*agg{}
+	for _, sc := range scns {
+		aggs[sc.Name] = &agg{outcomes: map[string]bool{}}
+	}
+	harness := ""
+	handle := func(jobs []interface{}, collect *[]interface{}) func(i int, resp *pool.Response) {
+		return func(i int, resp *pool.Response) {
+			job := jobs[i].(*engines.C11Job)
+			a := aggs[job.Scenario]
+			if resp.Err == "skipped" {
+				a.capped = true
+				return
+			}
+			if resp.Err != "" {
+				rep.Inconclusive++
+				a.capped = true
+				fmt.Fprintf(os.Stderr, "[schedules] inconclusive: %s prefix %v: %s\n", job.Scenario, job.Prefix, resp.Err)
+				return
+			}
+			var r engines.C11Res
+			_ = json.Unmarshal(resp.Result, &r)
+			if r.Harness != "" {
+				harness = job.Scenario + ": " + r.Harness
+				return
+			}
+			a.execs += r.Execs
+			a.steps += r.Steps
+			if r.MaxPoints > a.maxPoints {
+				a.maxPoints = r.MaxPoints
+			}
+			if r.Capped {
+				a.capped = true
+			}
+			for _, o := range r.Outcomes {
+				a.outcomes[o] = true
+			}
+			for _, s := range r.Sample {
+				rep.AddSample(s)
+			}
+			if collect != nil {
+				for _, c := range r.Children {
+					*collect = append(*collect, &engines.C11Job{Scenario: job.Scenario, Prop: prop, Seams: job.Seams, Bound: job.Bound, Prefix: c})
+				}
+			}
+			for _, v := range r.Viol {
+				mj := &engines.C11Job{Scenario: job.Scenario, Prop: prop, Seams: job.Seams, Bound: job.Bound, Prefix: v.Sched, Mode: "one"}
+				rep.Add("c11", mj, []engines.Violation{v})
+			}
+		}
+	}
+	p.Stop = func() bool { return time.Now().After(deadline) }
+	lvl := []interface{}{}
+	for _, sc := range scns {
+		lvl = append(lvl, &engines.C11Job{Scenario: sc.Name, Prop: prop, Seams: seams, Bound: bound, Prefix: []int{}})
+	}
+	for depth := 0; depth < 2 && len(lvl) > 0; depth++ {
+		for _, j := range lvl {
+			j.(*engines.C11Job).Mode = "expand"
+		}
+		next := []interface{}{}
+		p.Map("c11", lvl, handle(lvl, &next))
+		lvl = next
+	}
+	for _, j := range lvl {
+		j.(*engines.C11Job).Mode = "subtree"
+	}
+	p.Map("c11", lvl, handle(lvl, nil))
+	p.Stop = nil
+	if harness != "" {
+		res.harness = harness
+		return res
+	}
+	for _, sc := range scns {
+		a := aggs[sc.Name]
+		if a.capped {
+			res.exhaustive = false
+			rep.Notes = append(rep.Notes, fmt.Sprintf("%s seams=%v bound=%d: not completed within the budget", sc.Name, seams, bound))
+		} else {
+			res.completed++
+		}
+		res.execs += a.execs
+		res.steps += a.steps
+		for o := range a.outcomes {
+			res.outcomes[sc.Name+"|"+o] = true
+		}
+		res.per = append(res.per, map[string]interface{}{"scenario": sc.Name, "point_set": map[bool]string{false: "L", true: "L+S"}[seams],
+			"preemption_bound": bound, "schedules": a.execs, "scheduling_steps": a.steps, "max_points_per_execution": a.maxPoints, "distinct_outcomes": len(a.outcomes), "completed": !a.capped})
+	}
+	return res
 }
 
 // racePass: the same scenario bodies, free-running (real goroutines, sync.Mutex, io.Pipe) in a binary built with -race.
